@@ -2102,7 +2102,10 @@ namespace
         size_t pop_frame_count = 0;
         if (target_scope.empty())
         { // Empty just pops
+            auto value_stack_pos = context.current_frame().value_stack_pos();
             context.pop_frame();
+            // Drop the operands the left scope still had on the value stack
+            while (context.values_size() > value_stack_pos) { context.pop_value(true); }
             return left;
         }
         else
@@ -2111,10 +2114,13 @@ namespace
             {
                 if (it->scope_name() == target_scope)
                 {
+                    auto value_stack_pos = it->value_stack_pos();
                     for (pop_frame_count++; pop_frame_count != 0; --pop_frame_count)
                     {
                         context.pop_frame();
                     }
+                    // Drop the operands the left scopes still had on the value stack
+                    while (context.values_size() > value_stack_pos) { context.pop_value(true); }
                     return left;
                 }
             }
